@@ -254,7 +254,26 @@ def _engine_s(name: str, have: List[str]) -> List[str]:
         return []
 
 
+class _Lazy:
+    """an attribute of the library looked up only when described: private helpers may be renamed or moved by a refactoring, and the
+    list of encoded functions (evidence only) must never make a check fail"""
+
+    def __init__(self, thunk: Any):
+        self.thunk = thunk
+
+
+def lazy(thunk: Any) -> _Lazy:
+    return _Lazy(thunk)
+
+
 def describe_function(fn: Any) -> str:
+    if fn is None:
+        return "<absent in this tree>"
+    if isinstance(fn, _Lazy):
+        try:
+            fn = fn.thunk()
+        except AttributeError:
+            return "<absent in this tree>"
     """file:first-last line of a live code object (evidence: which code was encoded)."""
     import inspect
 
